@@ -921,6 +921,23 @@ def _np_where(I, st, pos, kws, node):
                         patterns=[POSF(j)]))
     st.heap[ref.id].np_index = True
     st.heap[ref.id].where_of = (me, n, POSF)
+    # DERIVED LIBRARY LEMMA (assumed, validated differentially):
+    #   np.where(np.isin(X, V))[0] == C   when V is X.take(C) (possibly through np.unique) and X, C are strictly increasing
+    pv = m.prov
+    if pv and pv[0] == "isin":
+        X, V = pv[1], pv[2]
+        vp = V.prov
+        if vp and vp[0] == "unique":
+            vp = vp[1].prov
+        if vp and vp[0] == "take" and getattr(vp[1], "src_id", 0) == getattr(X, "src_id", 1):
+            C = vp[2]
+            a_, b_ = z3.Int(fresh_name("i")), z3.Int(fresh_name("j"))
+            incx = z3.ForAll([a_, b_], z3.Implies(z3.And(a_ >= 0, a_ < b_, b_ < X.length), to_real(X.elem(a_)) < to_real(X.elem(b_))))
+            incc = z3.ForAll([a_, b_], z3.Implies(z3.And(a_ >= 0, a_ < b_, b_ < C.length), to_int(C.elem(a_)) < to_int(C.elem(b_))))
+            inb = z3.ForAll([a_], z3.Implies(z3.And(a_ >= 0, a_ < C.length), z3.And(to_int(C.elem(a_)) >= 0, to_int(C.elem(a_)) < X.length)))
+            st.assume(z3.Implies(z3.And(incx, incc, inb),
+                                 z3.And(Lw == C.length, z3.ForAll([i], z3.Implies(z3.And(i >= 0, i < Lw), W[i] == to_int(C.elem(i))), patterns=[W[i]]))))
+            I.assumed.add("derived library lemma: np.where(np.isin(x, x.take(c)))[0] == c for strictly increasing x and c")
     return [(st, TupV([ref]))]
 
 
@@ -935,7 +952,9 @@ def _isin(I, st, pos, kws, node):
             return Num(z3.Or([to_real(ea(i)) == to_real(eb(z3.IntVal(k))) for k in range(cl)]) if cl else z3.BoolVal(False), "bool")
         j = z3.Int(fresh_name("j"))
         return Num(z3.Exists([j], z3.And(j >= 0, j < nb, to_real(ea(i)) == to_real(eb(j)))), "bool")
-    return [(st, L.new_seq(st, "ndarray", "bool", ra.length, elem))]
+    ref = L.new_seq(st, "ndarray", "bool", ra.length, elem)
+    st.heap[ref.id].prov = ("isin", ra, rb)
+    return [(st, ref)]
 
 
 LIBS["numpy.isin"] = _isin
@@ -959,6 +978,12 @@ def _np_unique(I, st, pos, kws, node):
     st.assume(z3.ForAll([i], z3.Implies(z3.And(i >= 0, i < Lu), z3.And(SRC(i) >= 0, SRC(i) < n, U[i] == e(SRC(i)).t)), patterns=[U[i]]))
     st.assume(z3.ForAll([j], z3.Implies(z3.And(j >= 0, j < n), z3.And(PS(j) >= 0, PS(j) < Lu, U[PS(j)] == e(j).t)), patterns=[PS(j)]))
     st.heap[ref.id].unique_of = (e, n, SRC, PS)
+    # DERIVED LIBRARY LEMMA (assumed, validated differentially): unique of a strictly increasing sequence is the sequence
+    a_, b_ = z3.Int(fresh_name("i")), z3.Int(fresh_name("j"))
+    incr = z3.ForAll([a_, b_], z3.Implies(z3.And(a_ >= 0, a_ < b_, b_ < n), to_real(e(a_)) < to_real(e(b_))))
+    st.assume(z3.Implies(incr, z3.And(Lu == n, z3.ForAll([i], z3.Implies(z3.And(i >= 0, i < n), U[i] == e(i).t), patterns=[U[i]]))))
+    I.assumed.add("derived library lemma: np.unique of a strictly increasing array returns it unchanged")
+    st.heap[ref.id].prov = ("unique", ra)
     return [(st, ref)]
 
 
